@@ -203,6 +203,7 @@ def main(argv=None):
     solver_seconds = 0.0
     dropped = set()
     assumed_used = set()
+    verified_somewhere = {f for sp_ in P.PROPS.values() for f in sp_["functions"]}
     inlined = set()
     thorough = args.tier == "thorough"
     z3_ms = 30000 if thorough else None
@@ -248,6 +249,10 @@ def main(argv=None):
             cc = reg.contracts.get(c)
             if cc is not None and cc.assumed:
                 assumed_used.add(c)
+            elif cc is not None and c not in verified_somewhere:
+                # a callee contract on a repository function whose body no check verifies: for the
+                # caller's proof it is an assumption like any other
+                assumed_used.add(c + " (contract relied upon by callers; its body is not verified by any check)")
         functions.append({"qualname": q, "file": (rep.file or "").replace(repo.root + "/", ""), "line": rep.line,
                           "source_hash": rep.hash, "paths": rep.paths, "seconds": round(rep.seconds, 2)})
         if rep.errors:
